@@ -141,7 +141,7 @@ void run(Ctx &ctx) {
     ip6_product(ctx, z.ip_groups3, z.ip_groups4, [&](const Str &s) { b.run(s.data(), (int)s.size(), false); n_ip++; });
     ipfuture_product(ctx, z.fut_len, [&](const Str &s) { b.run(s.data(), (int)s.size(), false); n_fut++; });
     if (z.octets) octet_product(ctx, [&](const Str &s) { b.run(s.data(), (int)s.size(), false); n_oct++; });
-    if (z.octets) { octet_sweep(ctx, [&](const Str &s) { b.run(s.data(), (int)s.size(), false); n_oct++; }); hexgroup_sweep(ctx, [&](const Str &s) { b.run(s.data(), (int)s.size(), false); n_oct++; }); dotted_family(ctx, [&](const Str &s) { b.run(s.data(), (int)s.size(), false); n_oct++; }); }
+    if (z.octets) { octet_sweep(ctx, [&](const Str &s) { b.run(s.data(), (int)s.size(), false); n_oct++; }); hexgroup_sweep(ctx, [&](const Str &s) { b.run(s.data(), (int)s.size(), false); n_oct++; }); dotted_family(ctx, [&](const Str &s) { b.run(s.data(), (int)s.size(), false); n_oct++; }); userinfo_ip_family(ctx, [&](const Str &s) { b.run(s.data(), (int)s.size(), false); n_oct++; }); }
     // (e) the stretch family: every component blown up to lengths around powers of two, alone, with an illegal character at the
     //     end, with a truncated escape at the end and with an illegal character in the middle (error offsets far from the start)
     uint64_t n_stretch = 0;
